@@ -84,7 +84,7 @@ enum {
 #define CONCRETE_D 0  /* 1: durations are chosen from {0,1,2} (needed where the library divides by elapsed time) */
 #endif
 #ifndef BAMT_FULL
-#define BAMT_FULL 0   /* 1: buffer amounts range over all of uint64 */
+#define BAMT_FULL 0   /* 1: buffer amounts range over all of uint64; 2: concrete choices 0..3 (where the library converts levels to double) */
 #endif
 #ifndef OBSERVE
 #define OBSERVE 0     /* 1: condition observes the resource guard via cmb_resourceguard_register, 2: via cmb_condition_subscribe */
@@ -211,6 +211,10 @@ static void observe_all(void)
 static void apply_delivery(int id, int hit)
 {
     led[hit].delivered = 1;
+    if (led[hit].kind == L_PREEMPT) {
+        /* several preemptions of the same victim in one instant are delivered as one PREEMPTED signal */
+        for (int k = 0; k < nled; k++) if (led[k].tgt == id && led[k].kind == L_PREEMPT && led[k].due == led[hit].due) led[k].delivered = 1;
+    }
     if (led[hit].kind == L_INTR || led[hit].kind == L_PREEMPT) cancel_timers_of(id);  /* documented: interrupt/preempt clears timers */
     if (led[hit].kind == L_TIMER) {
         for (int t = 0; t < P[id].ntimers; t++) if (P[id].timers[t] == led[hit].handle) { P[id].timers[t] = P[id].timers[--P[id].ntimers]; break; }
@@ -291,7 +295,7 @@ static int mark_satisfied_waiters(int src)
 {
     int any = 0;
     for (int i = 0; i < NPROC; i++) {
-        if (P[i].waiting == W_CWAIT && P[i].wait_arg == 0 && (OBSERVE ? owner < 0 : cstate >= cthr[i])) { P[i].c_must = 1; P[i].c_src = src; P[i].wait_since = cmb_time(); any = 1; }
+        if (P[i].waiting == W_CWAIT && P[i].wait_arg == 0 && !P[i].c_must && (OBSERVE ? owner < 0 : cstate >= cthr[i])) { P[i].c_must = 1; P[i].c_src = src; P[i].wait_since = cmb_time(); any = 1; }
     }
     return any;
 }
@@ -558,7 +562,7 @@ static void step(int id, int op)
         break; }
     /* ---------------- buffer (C11) */
     case OP_BPUT: case OP_BGET: {
-        uint64_t n = BAMT_FULL ? sym_u64("bamount") : (uint64_t)sym_range(0, 6, "bamount");
+        uint64_t n = BAMT_FULL == 1 ? sym_u64("bamount") : BAMT_FULL == 2 ? sym_choice(4, "bamount") : (uint64_t)sym_range(0, 4, "bamount");
         if (op == OP_BPUT) sym_assume(n > 0);
         uint64_t amt = n;
         uint64_t lvl0 = buf_level;
@@ -678,7 +682,7 @@ static void step(int id, int op)
         int cancel = op <= OP_CCANCEL2;
         int j = cancel ? op - OP_CCANCEL0 : op - OP_CREMOVE0;
         if (j >= NPROC || j == id) break;
-        int waitingj = (P[j].waiting == W_CWAIT && P[j].wait_arg == 0);
+        int waitingj = (P[j].waiting == W_CWAIT && P[j].wait_arg == 0 && !P[j].c_must);   /* still in the queue */
         bool r = cancel ? cmb_condition_cancel(CV, P[j].p) : cmb_condition_remove(CV, P[j].p);
         sym_assert(r == (waitingj != 0), "condition cancel/remove reports whether the process was waiting");
         if (waitingj && cancel) ledger_add(j, L_CANCEL, CMB_PROCESS_CANCELLED, now, 0);
